@@ -53,7 +53,7 @@ TOL = 1e-8
 
 
 # ------------------------------------------------------------------------------------------------ generation
-def gen_program(wl, ne, np_, nc, length, allow_ins, kinds_w=None, hbias=0.0):
+def gen_program(wl, ne, np_, nc, length, allow_ins, kinds_w=None, hbias=0.0, emitter_control_only=False):
     regs = [("e", i) for i in range(ne)] + [("p", i) for i in range(np_)]
     kinds = ["g1", "w", "g2", "cc", "m"]
     w = kinds_w or [40, 12, 25, 15, 8]
@@ -70,9 +70,13 @@ def gen_program(wl, ne, np_, nc, length, allow_ins, kinds_w=None, hbias=0.0):
             spec = ["w", [wl.choice(gq.NAMES1) for _ in range(wl.randint(1, 4))], t, r]
         elif k == "g2":
             a, b = wl.sample(regs, 2)
+            if emitter_control_only and a[0] != "e":
+                a, b = (b, a) if b[0] == "e" else (("e", 0), a)
             spec = ["g2", wl.choice(["CNOT", "CZ"]), a[0], a[1], b[0], b[1]]
         elif k == "cc":
             a, b = wl.sample(regs, 2)
+            if emitter_control_only and a[0] != "e":
+                a, b = (b, a) if b[0] == "e" else (("e", 0), a)
             spec = ["cc", wl.choice(["CCNOT", "CCZ", "MCR"]), a[0], a[1], b[0], b[1], wl.randrange(nc)]
         else:
             t, r = wl.choice(regs)
